@@ -60,6 +60,8 @@ impl TransportHook {
 /// Public wrapper for the crate-private frame parser (`network::parse_protocol_message`).
 pub fn parse_protocol_message(bytes: &[u8], source: &str) -> Option<crate::network::P2PEvent> {
     crate::network::parse_protocol_message(bytes, source)
+}
+
 /// `DhtCoreEngine::new_with_validation_mode` is crate-private; the node itself
 /// (DhtNetworkManager::init_dht_core) builds its engine in LogOnly mode, which
 /// the harness needs in order to drive the same configuration.
